@@ -3,9 +3,9 @@
    run; the engine (Model.Standardize) is hand-modelled and tied by correspondence (harness/checks/C14.py).
    NOT theorems (search only): idempotence, numbering independence, tautomer enumeration, neutralisation. *)
 From Coq Require Import ZArith List String Bool.
-From Model Require Import PyBase Graph PeriodicTable Standardize StandardizeMatch.
+From Model Require Import PyBase Graph PeriodicTable Standardize StandardizeMatch StandardizeHyd.
 From Gen Require Import Elements StdRules.
-From Proofs Require Import StandardizeProofs StandardizeExt StandardizeTables.
+From Proofs Require Import StandardizeProofs StandardizeExt StandardizeTables StandardizeHydProofs.
 Import ListNotations.
 Open Scope Z_scope.
 
@@ -212,3 +212,17 @@ Theorem C14_table_exceptions_exact :
   (30 <=? List.length (filter (fun r => fires 0 r && rp_valid (report_of 0 r)) table_rules))%nat = true.
 Proof. exact table_exact. Qed.
 Print Assumptions C14_table_exceptions_exact.
+
+(* explicify_implicify_inverse, _partial: FINITE instance of the inverse law, with the real valence tables as the lookup: on
+   every valence-valid, hydrogen-atom-free instantiation of a rule of the regenerated tables (three variants) and on what the
+   pass sequence makes of it, implicify (explicify g) = g (dictionaries in the same order) and explicify of that gives the
+   explicit form back; at least 40 of the instantiations have hydrogens to move.  Missing: the law for ALL molecules whose
+   hydrogen counts are first-rule counts (tied by correspondence on 400 molecules and searched on every valid input). *)
+Theorem C14_explicify_implicify_inverse_partial :
+  (forall v r, In v [0; 1; 2]%nat -> In r (double_rules ++ single_rules ++ metal_rules) ->
+     let g := vinstantiate v r in all_valid g = true -> no_h_atoms g = true -> inverse_b g = true) /\
+  forallb (fun v => forallb (fun r => let x := inverse_report v r in snd (fst x) && snd x) table_rules) [0; 1; 2]%nat = true /\
+  (40 <=? List.length (filter (fun vr => fst (fst (inverse_report (fst vr) (snd vr))))
+                              (flat_map (fun v => map (fun r => (v, r)) table_rules) [0; 1; 2]%nat)))%nat = true.
+Proof. exact (conj inverse_on_instantiations inverse_sweep_b). Qed.
+Print Assumptions C14_explicify_implicify_inverse_partial.
